@@ -30,31 +30,57 @@ def _limits():
         pass
 
 
-def run_isolated(exe, lines, per_batch_timeout=240):
-    """runs lines in a worker; restarts after a case that kills the worker. Returns {id: result}."""
+def run_isolated(exe, lines, per_case_timeout=40, max_hangs=6):
+    """runs lines in a worker, one result line per case; a case that produces nothing for per_case_timeout seconds is a hang
+    (the worker is killed and restarted behind it), a worker that dies is restarted behind the fatal case. Returns {id: result}."""
+    import select
+    import threading
     res = {}
     todo = list(lines)
+    hangs = 0
     while todo:
-        p = subprocess.Popen([exe], stdin=subprocess.PIPE, stdout=subprocess.PIPE, stderr=subprocess.DEVNULL, text=True, preexec_fn=_limits)
-        try:
-            out, _ = p.communicate("\n".join(todo) + "\n", timeout=per_batch_timeout)
-            timed_out = False
-        except subprocess.TimeoutExpired:
-            p.kill()
-            out, _ = p.communicate()
-            timed_out = True
+        p = subprocess.Popen([exe], stdin=subprocess.PIPE, stdout=subprocess.PIPE, stderr=subprocess.DEVNULL, preexec_fn=_limits)
+        payload = ("\n".join(todo) + "\n").encode()
+
+        def feed(p=p, payload=payload):
+            try:
+                p.stdin.write(payload)
+                p.stdin.close()
+            except Exception:
+                pass
+        threading.Thread(target=feed, daemon=True).start()
         done = 0
-        for line in out.split("\n"):
-            if not line:
-                continue
-            k, _, v = line.partition(" ")
-            res[k] = v
-            done += 1
+        buf = b""
+        timed_out = False
+        fd = p.stdout.fileno()
+        while done < len(todo):
+            r, _, _ = select.select([fd], [], [], per_case_timeout)
+            if not r:
+                timed_out = True
+                break
+            chunk = os.read(fd, 1 << 16)
+            if not chunk:
+                break
+            buf += chunk
+            while b"\n" in buf:
+                line, buf = buf.split(b"\n", 1)
+                if line:
+                    k, _, v = line.decode(errors="replace").partition(" ")
+                    res[k] = v
+                    done += 1
+        p.kill()
+        p.wait()
         if done >= len(todo):
             break
         bad = todo[done].split(" ", 1)[0]
         res[bad] = "timeout" if timed_out else f"died rc={p.returncode}"
         todo = todo[done + 1:]
+        if timed_out:
+            hangs += 1
+            if hangs >= max_hangs:
+                for l in todo:
+                    res[l.split(" ", 1)[0]] = "not-run (too many hangs before it)"
+                break
     return res
 
 
@@ -178,7 +204,8 @@ def run(rep):
     lines = []
     meta = {}
     seen = set()
-    opts_pool = ["-", "fix=1", "fix=1,preset=0", "fix=1,alpha=1,preset=3", "fix=1,strip=safe,interlace=1", "fix=1,force=1,scale16=1", "strip=all"]
+    opts_pool = ["-", "fix=1", "fix=1,preset=0", "fix=1,alpha=1,preset=3", "fix=1,strip=safe,interlace=1", "fix=1,force=1,scale16=1", "strip=all",
+                 "timeout=0", "fix=1,timeout=0,preset=3"]
     for kind, b in files:
         ms = mutants(rng, kind, b, quick)
         if quick:
@@ -194,6 +221,13 @@ def run(rep):
             cid = f"m{len(lines)}"
             lines.append(f"{cid} mem {o} {mb.hex() or '-'}")
             meta[cid] = (mk, len(mb), o, mb, kind)
+    # the unmutated corpus under option vectors that exercise every phase, with and without an already expired timeout
+    # ("never fails to terminate": an expired clock must not leave the collector waiting for work that will never be counted)
+    for kind, b in files:
+        for o in ("timeout=0", "timeout=0,preset=3", "timeout=0,preset=5,alpha=1", "timeout=0,fast=0,filters=0+1+9", "preset=4", "timeout=0,interlace=1,force=1"):
+            cid = f"v{len(lines)}"
+            lines.append(f"{cid} mem {o} {b.hex()}")
+            meta[cid] = ("valid", len(b), o, b, kind)
     # absurd headers (F3/F4/F11 reproducers) and raw tuples
     def hdr_png(w, h, depth, ct, il, idat=b"\x78\x9c\x03\x00\x00\x00\x00\x01"):
         return pg.SIG + pg.chunk("IHDR", pg.ihdr_bytes(w, h, depth, ct, il)) + pg.chunk("IDAT", idat) + pg.chunk("IEND", b"")
@@ -248,7 +282,7 @@ def run(rep):
     ids = [c for c in meta if c.startswith("m")]
     for cid in rng.sample(ids, min(len(ids), 500 if quick else 6000)):
         mk, n, o, mb, kind = meta[cid]
-        if mb:
+        if mb and "timeout" not in o:      # the replay has no clock records for a real (already expired) timeout
             cs.add(f"optlog {o} - {mb.hex()}", mk=mk)
     e2e.run_pairs(rep, cs, "outcome class on malformed input")
     rep.assumptions.append("memory safety of unsafe code (transmute in RowFilter::try_from, libdeflate FFI), stack depth and allocator behaviour are exercised, not modelled")
